@@ -865,6 +865,251 @@ func chanCaps(fd *ast.FuncDecl) map[string]string {
 	return out
 }
 
+// ---------------------------------------------------------------------------------------------
+// send sites: which mutexes are (textually) held at every BLOCKING send on one of the scheduler's channels
+// (the bounded model's `profile`, Model/SchedChan.lean).  Lock names are normalised (`X.refMu` -> refMu,
+// `s.loadedMu` -> loadedMu), function names dropped: the result is a SET of (channel, held mutexes).
+
+func lockName(x string) string {
+	switch {
+	case strings.HasSuffix(x, ".loadedMu"):
+		return "loadedMu"
+	case strings.HasSuffix(x, ".refMu"):
+		return "refMu"
+	}
+	return x
+}
+
+func lockCall(st ast.Stmt) (name string, lock, ok bool) {
+	var ce *ast.CallExpr
+	switch x := st.(type) {
+	case *ast.ExprStmt:
+		ce, _ = x.X.(*ast.CallExpr)
+	case *ast.DeferStmt:
+		ce = x.Call
+	}
+	if ce == nil {
+		return
+	}
+	t := src(ce.Fun)
+	switch {
+	case strings.HasSuffix(t, ".Lock"):
+		return lockName(strings.TrimSuffix(t, ".Lock")), true, true
+	case strings.HasSuffix(t, ".Unlock"):
+		return lockName(strings.TrimSuffix(t, ".Unlock")), false, true
+	}
+	return
+}
+
+func without(l []string, x string) []string {
+	var out []string
+	done := false
+	for _, y := range l {
+		if y == x && !done {
+			done = true
+			continue
+		}
+		out = append(out, y)
+	}
+	return out
+}
+
+func litEntryLocks(fl *ast.FuncLit) []string {
+	var held, locked []string
+	for _, st := range fl.Body.List {
+		if n, lock, ok := lockCall(st); ok {
+			if lock {
+				locked = append(locked, n)
+			} else if _, isDefer := st.(*ast.DeferStmt); isDefer {
+				has := false
+				for _, l := range locked {
+					has = has || l == n
+				}
+				if !has {
+					held = append(held, n) // deferred unlock of a mutex the literal never locks: held on entry
+				}
+			}
+		}
+	}
+	return held
+}
+
+func sendSites(list []ast.Stmt, held []string, out map[string]bool) []string {
+	record := func(ch ast.Expr) {
+		c := src(ch)
+		if !strings.HasPrefix(c, "s.") {
+			return
+		}
+		h := append([]string{}, held...)
+		sort.Strings(h)
+		out[strings.TrimPrefix(c, "s.")+":"+strings.Join(h, "+")] = true
+	}
+	lits := func(n ast.Node) {
+		ast.Inspect(n, func(m ast.Node) bool {
+			if fl, ok := m.(*ast.FuncLit); ok {
+				sendSites(fl.Body.List, litEntryLocks(fl), out)
+				return false
+			}
+			return true
+		})
+	}
+	for _, st := range list {
+		switch x := st.(type) {
+		case *ast.SendStmt:
+			record(x.Chan)
+		case *ast.ExprStmt, *ast.DeferStmt, *ast.GoStmt, *ast.AssignStmt, *ast.ReturnStmt:
+			if n, lock, ok := lockCall(st); ok {
+				if _, isDefer := st.(*ast.DeferStmt); !isDefer {
+					if lock {
+						held = append(append([]string{}, held...), n)
+					} else {
+						held = without(held, n)
+					}
+				}
+				continue
+			}
+			lits(st)
+		case *ast.IfStmt:
+			sendSites(x.Body.List, held, out)
+			switch el := x.Else.(type) {
+			case *ast.BlockStmt:
+				sendSites(el.List, held, out)
+			case *ast.IfStmt:
+				sendSites([]ast.Stmt{el}, held, out)
+			}
+		case *ast.BlockStmt:
+			held = sendSites(x.List, held, out)
+		case *ast.ForStmt:
+			sendSites(x.Body.List, held, out)
+		case *ast.RangeStmt:
+			sendSites(x.Body.List, held, out)
+		case *ast.SwitchStmt:
+			for _, c := range x.Body.List {
+				sendSites(c.(*ast.CaseClause).Body, held, out)
+			}
+		case *ast.SelectStmt:
+			hasDefault := false
+			for _, c := range x.Body.List {
+				if c.(*ast.CommClause).Comm == nil {
+					hasDefault = true
+				}
+			}
+			for _, c := range x.Body.List {
+				cc := c.(*ast.CommClause)
+				if ss, ok := cc.Comm.(*ast.SendStmt); ok && !hasDefault {
+					record(ss.Chan)
+				}
+				sendSites(cc.Body, held, out)
+			}
+		case *ast.LabeledStmt:
+			held = sendSites([]ast.Stmt{x.Stmt}, held, out)
+		}
+	}
+	return held
+}
+
+// expiredOrder: in the expired case, is `s.loadedMu.Lock()` taken before `X.refMu.Lock()`?
+func expiredOrder(fd *ast.FuncDecl) bool {
+	cc := commClause(fd, "s.expiredCh")
+	if cc == nil {
+		return false
+	}
+	mu, ref := -1, -1
+	for i, st := range cc.Body {
+		if n, lock, ok := lockCall(st); ok && lock {
+			if n == "loadedMu" && mu < 0 {
+				mu = i
+			}
+			if n == "refMu" && ref < 0 {
+				ref = i
+			}
+		}
+	}
+	return mu >= 0 && ref >= 0 && mu < ref
+}
+
+// idleDrains: the outermost select of processPending has a receive arm on s.unloadedCh
+func idleDrains(fd *ast.FuncDecl) bool {
+	var sel *ast.SelectStmt
+	ast.Inspect(fd.Body, func(n ast.Node) bool {
+		if s, ok := n.(*ast.SelectStmt); ok && sel == nil {
+			sel = s
+		}
+		return sel == nil
+	})
+	if sel == nil {
+		return false
+	}
+	for _, c := range sel.Body.List {
+		cc := c.(*ast.CommClause)
+		if cc.Comm != nil && strings.Contains(src(cc.Comm), "<-s.unloadedCh") {
+			if _, isSend := cc.Comm.(*ast.SendStmt); !isSend {
+				return true
+			}
+		}
+	}
+	return false
+}
+
+// unloadClosesOnce: in unload() every `X.llama.Close()` is dominated by `X.llama != nil` and X.llama is set to nil
+// afterwards in the same function (a second unload() of the same runner is a no-op: the model's `if x.closed then …`
+// of `cExp`); the only other Close() of a runner's server in the file is unloadAllRunners (shutdown)
+func unloadClosesOnce(f *ast.File) bool {
+	ok := true
+	sites := 0
+	for _, d := range f.Decls {
+		fd, isFn := d.(*ast.FuncDecl)
+		if !isFn || fd.Body == nil || absorbed[fd.Name.Name] {
+			continue
+		}
+		n := normalise(fd)
+		closes, guarded := 0, 0
+		var xs []string
+		walk(n.Body.List, newEnv(), func(st ast.Stmt, e env) {
+			es, isExpr := st.(*ast.ExprStmt)
+			if !isExpr {
+				return
+			}
+			ce, isCall := es.X.(*ast.CallExpr)
+			if !isCall || !strings.HasSuffix(src(ce.Fun), ".llama.Close") {
+				return
+			}
+			closes++
+			x := strings.TrimSuffix(e.norm(ce.Fun), ".llama.Close")
+			if e.has(false, x+".llama", "nil") {
+				guarded++
+				xs = append(xs, x)
+			}
+		})
+		if closes == 0 {
+			continue
+		}
+		sites += closes
+		switch fd.Name.Name {
+		case "unloadAllRunners":
+			// shutdown: outside the model
+		case "unload":
+			if guarded != closes {
+				ok = false
+			}
+			for _, x := range xs {
+				niled := false
+				for _, st := range n.Body.List {
+					if as, isAs := st.(*ast.AssignStmt); isAs && len(as.Lhs) == 1 && src(as.Lhs[0]) == x+".llama" && src(as.Rhs[0]) == "nil" {
+						niled = true
+					}
+				}
+				if !niled {
+					ok = false
+				}
+			}
+		default:
+			ok = false // a Close() site the model does not know
+		}
+	}
+	return ok && sites > 0
+}
+
 func main() {
 	f, err := parser.ParseFile(fset, os.Getenv("SCHED_GO"), nil, 0)
 	if err != nil {
@@ -937,6 +1182,23 @@ func main() {
 			return -1
 		}, v))
 	}
+	fmt.Printf("expiredOrderFixed=%v\nidleDrains=%v\n", expiredOrder(pc), idleDrains(pp))
+	fmt.Printf("unloadClosesOnce=%v\n", unloadClosesOnce(f))
+	sites := map[string]bool{}
+	for _, n := range names {
+		if absorbed[n] {
+			continue
+		}
+		if fd := normalise(funcs[n]); fd != nil && fd.Body != nil {
+			sendSites(fd.Body.List, nil, sites)
+		}
+	}
+	var sl []string
+	for k := range sites {
+		sl = append(sl, k)
+	}
+	sort.Strings(sl)
+	fmt.Printf("sendSites=%s\n", strings.Join(sl, ","))
 	var ab []string
 	for n := range absorbed {
 		ab = append(ab, n)
